@@ -75,7 +75,7 @@ def lp_extremes(n: int, values, K, targets):
 
 def run_case(ctx, case, do_cert: bool, do_lp: bool) -> None:
     n, values, exact, K, comp = case["n"], case["values"], case["exact"], case["K"], case["computer"]
-    game = sut.new_game(n, comp)
+    game = sut.object_for_case(ctx, case, comp)
     try:
         sut.set_knowledge(game, values, K)
         game.compute_bounds()
